@@ -683,6 +683,25 @@ impl<'tcx> Dumper<'tcx> {
         }
         let _ = ldid;
         items.push(("argc", body.arg_count.to_string()));
+        // names of the type parameters in scope (parents first), in the order a caller's type arguments are listed
+        {
+            let mut names: Vec<String> = Vec::new();
+            let mut stack = Vec::new();
+            let mut cur = Some(did);
+            while let Some(d) = cur {
+                let g = tcx.generics_of(d);
+                stack.push(g);
+                cur = g.parent;
+            }
+            for g in stack.iter().rev() {
+                for p in g.own_params.iter() {
+                    if let ty::GenericParamDefKind::Type { .. } = p.kind {
+                        names.push(jstr(p.name.as_str()));
+                    }
+                }
+            }
+            items.push(("generics", jarr(&names)));
+        }
         let mut locals = Vec::new();
         for (_l, d) in body.local_decls.iter_enumerated() {
             locals.push(jobj(&[
